@@ -205,8 +205,8 @@ class ScriptEngine(Engine):
 def _first_error(stderr: str) -> str:
     for line in stderr.splitlines():
         if "error" in line:
-            return line.strip()[:240]
-    return stderr.strip()[:240]
+            return re.sub(r"/\S+?\.cpp:", "sketch.cpp:", line.strip())[:240]
+    return re.sub(r"/\S+?\.cpp:", "sketch.cpp:", stderr.strip())[:240]
 
 
 def _count_faults(world: dict, faults: Dict[str, int]) -> None:
